@@ -260,6 +260,9 @@ mirror_verdict!(c05_ver_unit_unit, (), ());
 mirror_verdict!(c05_ver_unit_i16, (), i16);
 mirror_verdict!(c05_ver_f64_bool, f64, bool);
 mirror_verdict!(c05_ver_opt_u8_val3, Option<u8>, Val<[u8; 3]>);
+// the larger side is the less aligned one: the enum size must still be rounded to the larger alignment
+mirror_verdict!(c05_ver_val9_u32, Val<[u8; 9]>, u32);
+mirror_result!(c05_res_u64_val17, u64, Val<[u8; 17]>);
 
 crate::list![
     c05_opt_u8,
@@ -292,4 +295,6 @@ crate::list![
     c05_ver_unit_i16,
     c05_ver_f64_bool,
     c05_ver_opt_u8_val3,
+    c05_ver_val9_u32,
+    c05_res_u64_val17,
 ];
